@@ -248,7 +248,7 @@ extern int mpt_world_get(const MPT_STRUCT(world) *wld, MPT_STRUCT(property) *pr)
 			format[2] = type;
 		}
 		
-		return wld && memcmp(wld, &def_world, sizeof(*wld)) ? 1 : 0;
+		return wld && memcmp(wld, &def_world, MPT_offset(world,cyc) + sizeof(wld->cyc)) ? 1 : 0;
 	}
 	/* find property by name */
 	else {
